@@ -939,7 +939,11 @@ class MoveFieldView(Table):
             hdr = next(it)
         except StopIteration:
             hdr = []
-        outhdr = [f for f in hdr if f != self.field]
+        # N.B., take out the first field with that name only, other fields
+        # that happen to have the same name stay where they are
+        outhdr = list(hdr)
+        if self.field in outhdr:
+            outhdr.remove(self.field)
         outhdr.insert(self.index, self.field)
         yield tuple(outhdr)
 
